@@ -10,7 +10,10 @@
 
   Liveness is a backward data-flow fact about `switch (state)`: a field is live in a state if some
   dispatch from that state reads it before writing it, directly, or after jumping to the saved state
-  (`via`: the states that later continue in `top.saved`).
+  (`via`: the states that later continue in `top.saved`).  `via` has to contain the four comment
+  states as well as `eatws` and the escape states: a comment returns to `eatws` with the saved state
+  untouched, so whatever the saved state reads must survive the comment (`Eqv` is stated for arbitrary
+  tokeners, not only reachable ones, where the saved state of a whitespace level never reads scratch).
 -/
 import JsonC.Model.Tokener
 namespace JsonC.Tokener
